@@ -29,6 +29,11 @@ def cases(tier, seed):
             # plain read, default last address
             cs.append({"seq": "read", "value": name, "unit": memseq.unit(kind, label, list(base), dtr0=rng.randrange(256),
                                                                     dtr1=rng.randrange(256)), "addr_int": kind == "gear" and k == 1})
+            # boundary bytes at the first location (scale byte of scaled values, sign / mask patterns elsewhere)
+            for b0 in (0x00, 0x06, 0x07, 0xF9, 0xFA, 0xFF, 0xFE, 0x01):
+                m = list(base)
+                m[start] = b0
+                cs.append({"seq": "read", "value": name, "unit": memseq.unit(kind, label, m)})
             # every relevant 'last accessible location'
             lasts = sorted({max(0, start - 1), start, max(start, end - 1), end, 254, rng.randrange(255)}) if tier == "quick" \
                 else range(255)
@@ -47,7 +52,7 @@ def cases(tier, seed):
                 cs.append({"seq": "read", "value": name, "unit": memseq.unit(kind, label, m)})
             # silence / framing error injected at each read position
             for at in (range(1, width + 1) if width <= 8 or tier == "thorough" else sorted({1, width, rng.randrange(1, width + 1)})):
-                for fk in ("silent", "err"):
+                for fk in ("silent", "err", "errsame"):
                     cs.append({"seq": "read", "value": name, "unit": memseq.unit(kind, label, list(base), fault=[at, fk])})
     # whole-bank reads
     for label in memseq.SPECMAP:
@@ -80,7 +85,7 @@ def cases(tier, seed):
                         ticks[str(rng.randrange(5, 5 + max(2, base[0])))] = [[l, v] for l, v in sorted(ch.items())]
                 case["ticks"] = ticks
             if k % 5 == 0 and base[0] >= 4:
-                case["unit"]["fault"] = [rng.randrange(2, base[0]), rng.choice(["silent", "err"])]
+                case["unit"]["fault"] = [rng.randrange(2, base[0]), rng.choice(["silent", "err", "errsame"])]
             cs.append(case)
     return cs
 
